@@ -12,7 +12,7 @@ use std::path::Path;
 pub const PROP: Prop = Prop { id: "C16", spec, run, replay };
 
 const DIRECTIVES: [char; 15] = ['p', 'f', 'h', 'H', 'P', 'd', 's', 'n', 'i', 'U', 'G', 'm', 'y', 'Y', 'l'];
-const ESCAPES: [(&str, &[u8]); 10] = [("\\a", b"\x07"), ("\\b", b"\x08"), ("\\f", b"\x0c"), ("\\n", b"\n"), ("\\r", b"\r"), ("\\t", b"\t"), ("\\v", b"\x0b"), ("\\\\", b"\\"), ("\\0", b"\0"), ("\\101", b"A")];
+const ESCAPES: [(&str, &[u8]); 13] = [("\\a", b"\x07"), ("\\b", b"\x08"), ("\\f", b"\x0c"), ("\\n", b"\n"), ("\\r", b"\r"), ("\\t", b"\t"), ("\\v", b"\x0b"), ("\\\\", b"\\"), ("\\0", b"\0"), ("\\101", b"A"), ("\\012", b"\n"), ("\\000", b"\0"), ("\\047", b"'")];
 
 #[derive(Clone, Debug)]
 enum Comp {
@@ -71,8 +71,8 @@ fn spec(t: Tier) -> Spec {
     Spec {
         id: "C16",
         level: "exploration",
-        rule: format!("components: literal x, literal é, escapes \\a \\b \\f \\n \\r \\t \\v \\\\ \\0 \\101, %%, and each directive of p f h H P d s n i U G m y Y l with flag (none, -) x width (none, 1, 9): 103 components. Every format of <= {all} components on every configuration (9 starting-point spellings: r ./r r/ r// r/. . ../w/r absolute link-to-dir x -P -H -L) and of <= {deep} components on all 27 configurations in thorough (quick: on one, r/ under -H), rendered by the real find over a sandbox with every entry kind (regular, setuid, hard links, empty/non-empty/sticky/setgid directories, fifo, socket, links to each, dangling, outside, at depth 0..2, owners 0/1/54321/2^31) in -sorted order, several formats per run as consecutive -printf actions; the whole output must equal, byte for byte, the independent renderer's (values from lstat()/stat()/readlink() of the selected record, padding left/right to the width, never truncated, literals verbatim, nothing appended). A mismatching batch is bisected to the format and to the component. two -fprintf and one -fprint on the SAME file (renderings follow one another per entry); -fprintf FILE FORMAT is run for every single-component format (every third FILE exists beforehand with 20 000 bytes of other content); several starting points in one run: every ordered pair (and three longer lists) of 8 spellings of different lengths x %p %f %h %H %P %d %s %m %y x the three follow modes, also under -mindepth 1 and -depth; mount-point slice: %i %n %s %m %U %y on a tree with a tmpfs mounted inside it (the directory entry of a mount point carries the covered directory's inode number); wide-field slice: every directive and flag with widths 10, 16, 100, 255, 256, 1000 (and 65535 for %d, %y) followed by a literal, on every configuration. non-trivial = format containing a directive", all = t.pick(2, 2), deep = 3),
-        bound: json!({"components": 103, "max_components_all_configs": 2, "max_components_deep_configs": 3, "configs": 27}),
+        rule: format!("components: literal x, literal é, escapes \\a \\b \\f \\n \\r \\t \\v \\\\ \\0 \\101 \\012 \\000 \\047, %%, and each directive of p f h H P d s n i U G m y Y l with flag (none, -) x width (none, 1, 9): 106 components. Every format of <= {all} components on every configuration (9 starting-point spellings: r ./r r/ r// r/. . ../w/r absolute link-to-dir x -P -H -L) and of <= {deep} components on all 27 configurations in thorough (quick: on one, r/ under -H), rendered by the real find over a sandbox with every entry kind (regular, setuid, hard links, empty/non-empty/sticky/setgid directories, fifo, socket, links to each, dangling, outside, at depth 0..2, owners 0/1/54321/2^31) in -sorted order, several formats per run as consecutive -printf actions; the whole output must equal, byte for byte, the independent renderer's (values from lstat()/stat()/readlink() of the selected record, padding left/right to the width, never truncated, literals verbatim, nothing appended). A mismatching batch is bisected to the format and to the component. two -fprintf and one -fprint on the SAME file (renderings follow one another per entry); -fprintf FILE FORMAT is run for every single-component format (every third FILE exists beforehand with 20 000 bytes of other content); several starting points in one run: every ordered pair (and three longer lists) of 8 spellings of different lengths x %p %f %h %H %P %d %s %m %y x the three follow modes, also under -mindepth 1 and -depth; mount-point slice: %i %n %s %m %U %y on a tree with a tmpfs mounted inside it (the directory entry of a mount point carries the covered directory's inode number); wide-field slice: every directive and flag with widths 10, 16, 100, 255, 256, 1000 (and 65535 for %d, %y) followed by a literal, on every configuration. non-trivial = format containing a directive", all = t.pick(2, 2), deep = 3),
+        bound: json!({"components": 106, "max_components_all_configs": 2, "max_components_deep_configs": 3, "configs": 27}),
         assumptions: vec![
             "not judged (entries filtered out of the run by -path): %Y and %l on a link the follow mode resolves, %Y on a dangling link; %h when the part before the last component is empty ('/x') or itself ends in a slash ('r//x')".into(),
             "all sandbox modes have three or more octal digits (zero padding of %m is not specified); padded values are ASCII".into(),
